@@ -11,7 +11,7 @@ pub fn prop() -> Prop {
     Prop {
         id: "C12",
         level: "model_checking",
-        rule: "observer bodies H (15: the bound name next to ., ^., ^^., ^^^., another variable, another macro, a selected name) x enclosing contexts X (12: top level, map, filter, fold, sort_by, map_values, pipe stage, pipe-then-map, flat_map, pipes with a stage that returns its input unchanged) x binding forms F (25: a macro whose body is a pipe and is used as a stage of another pipe; set, define, a macro whose body names another macro or variable that is bound later, earlier or re-bound at the place of use, --set variable, --set macro, nested both ways, shadowing an inner/outer/--set binding, unused names, a macro whose body reads a variable bound outside/inside, a macro reading ^) x placement (binding outside X / inside the functional argument) x bound values (4) x position 1..4 among --select options x with/without --split-by x 2 inputs; plus the same expression repeated in four --select positions; plus 3..130 variables and macros in scope at once (nested set/define, or --set given that many times); 10..1100 expansions of one macro in one record, most yielding nothing; shadowing where the inner and the outer value are numerically close (2^64-1 / 2^64, -2^63 / -2^63-1, 2^53+1 / 2^53, 0 / -0.0); non-trivial = the body reads something the binding had to carry over (^, another binding, a selected name) or sits after --split-by / other selections; distinct by construction",
+        rule: "observer bodies H (15: the bound name next to ., ^., ^^., ^^^., another variable, another macro, a selected name) x enclosing contexts X (12: top level, map, filter, fold, sort_by, map_values, pipe stage, pipe-then-map, flat_map, pipes with a stage that returns its input unchanged) x binding forms F (27: a macro whose body binds its own name again; a macro whose body is a pipe and is used as a stage of another pipe; set, define, a macro whose body names another macro or variable that is bound later, earlier or re-bound at the place of use, --set variable, --set macro, nested both ways, shadowing an inner/outer/--set binding, unused names, a macro whose body reads a variable bound outside/inside, a macro reading ^) x placement (binding outside X / inside the functional argument) x bound values (4) x position 1..4 among --select options x with/without --split-by x 2 inputs; plus the same expression repeated in four --select positions; plus 3..130 variables and macros in scope at once (nested set/define, or --set given that many times); 10..1100 expansions of one macro in one record, most yielding nothing; shadowing where the inner and the outer value are numerically close (2^64-1 / 2^64, -2^63 / -2^63-1, 2^53+1 / 2^53, 0 / -0.0); non-trivial = the body reads something the binding had to carry over (^, another binding, a selected name) or sits after --split-by / other selections; distinct by construction",
         explanation: "each case is one run with two selections: the bound form and the form obtained by substituting the bound value / macro body by hand; both must have the same value (differential, no model needed) and both are also compared with the reference evaluator",
         assumptions: COMMON_ASSUMPTIONS.to_vec(),
         guards: vec!["binding-names-beyond-ascii-letters", "many-macro-expansions-in-one-record", "shadowing-with-numerically-close-values", "many-bindings-in-scope", "parent-read-under-a-binding", "other-variable-survives", "other-macro-survives", "selected-name-survives", "after-split", "shadowing", "macro-body-reads-outer-variable", "pipe-stage-parent", "later-select-sees-same-parents"],
@@ -79,6 +79,9 @@ fn forms(val: &'static str) -> Vec<Form> {
         f("shadow-define", vec!["--set=@m=0"], Some("(define \"m\" (push [] . 2) :HOLE)"), None, Some("(push [] . 2)"), true),
         f("define-with-alias-#", vec![], Some("(# \"m\" (push [] . 3) :HOLE)"), None, Some("(push [] . 3)"), true),
         f("macro-alias-def", vec![], Some("(def \"m\" (len .) :HOLE)"), None, Some("(len .)"), true),
+        // a macro whose body binds and uses its own name again (not a recursion: the inner binding shadows the outer one)
+        f("macro-body-rebinds-its-own-name", vec![], Some("(define \"m\" (define \"m\" (push [] . 1) @m) :HOLE)"), None, Some("(push [] . 1)"), true),
+        f("cli-macro-body-rebinds-its-own-name", vec!["--set=@m=(define \"m\" (push [] . 2) @m)"], None, None, Some("(push [] . 2)"), true),
         // a macro whose body is itself a pipe, used as a stage of another pipe: substitution nests the pipes
         f("macro-body-is-a-pipe", vec![], Some("(define \"m\" (| .o .p) :HOLE)"), None, Some("(| .o .p)"), true),
         f("cli-macro-body-is-a-pipe", vec!["--set=@m=(| .l (first .))"], None, None, Some("(| .l (first .))"), true),
